@@ -163,6 +163,8 @@ class PageCache(Entity):
         oldest_id, oldest = next(iter(self._pages.items()))
         if oldest.dirty:
             yield self._disk_write_latency_s
+            if self._pages.get(oldest_id) is not oldest:
+                return  # evicted or replaced by a concurrent caller meanwhile
             self._dirty_writebacks += 1
 
         del self._pages[oldest_id]
@@ -175,9 +177,12 @@ class PageCache(Entity):
 
     def _load_page(self, page_id: int) -> Generator[float]:
         """Load a page from disk into cache."""
-        yield from self._ensure_space()
         yield self._disk_read_latency_s
-        self._pages[page_id] = _CachedPage(page_id=page_id)
+        # Make room only now: other callers may have filled the cache (or
+        # inserted this very page, possibly dirty) during the disk read.
+        yield from self._ensure_space()
+        if page_id not in self._pages:
+            self._pages[page_id] = _CachedPage(page_id=page_id)
 
     def read_page(self, page_id: int) -> Generator[float]:
         """Read a page, serving from cache if present.
@@ -197,10 +202,10 @@ class PageCache(Entity):
         for i in range(1, self._readahead + 1):
             ahead_id = page_id + i
             if ahead_id not in self._pages and len(self._pages) < self._capacity:
-                yield from self._ensure_space()
                 yield self._disk_read_latency_s
-                self._pages[ahead_id] = _CachedPage(page_id=ahead_id)
-                self._readaheads += 1
+                if ahead_id not in self._pages and len(self._pages) < self._capacity:
+                    self._pages[ahead_id] = _CachedPage(page_id=ahead_id)
+                    self._readaheads += 1
 
     def write_page(self, page_id: int) -> Generator[float]:
         """Write a page to cache, marking it dirty.
@@ -216,7 +221,10 @@ class PageCache(Entity):
 
         self._misses += 1
         yield from self._ensure_space()
-        self._pages[page_id] = _CachedPage(page_id=page_id, dirty=True)
+        if page_id in self._pages:  # loaded by a concurrent caller while we made room
+            self._pages[page_id].dirty = True
+        else:
+            self._pages[page_id] = _CachedPage(page_id=page_id, dirty=True)
 
     def flush(self) -> Generator[float, None, int]:
         """Flush all dirty pages to disk.
@@ -224,7 +232,7 @@ class PageCache(Entity):
         Returns the number of pages flushed.
         """
         flushed = 0
-        for page in self._pages.values():
+        for page in list(self._pages.values()):
             if page.dirty:
                 yield self._disk_write_latency_s
                 page.dirty = False
